@@ -76,6 +76,16 @@ Definition run (fields : list str) : list str :=
             end
         | _ => BAD
         end
+      else if tag_is tag [115;104;105;102;116]%N then   (* "shift" int_bit long_bit llong_bit base count -> E | N *)
+        match args with
+        | [ib; lb; llb; b; c] =>
+            let base := match b with
+                        | [98%N] => IBool | [99%N] => IChar | [104%N] => IShort | [108%N] => ILong | [113%N] => ILLong | _ => IInt
+                        end in
+            let z := fun x => match Z_of_dec x with Some v => v | None => 0%Z end in
+            [if shift_too_many (z ib) (z lb) (z llb) base (z c) then [69%N] else [78%N]]
+        | _ => BAD
+        end
       else if tag_is tag [108;101;97;107]%N then
         match args with
         | [p] => match parse_prog p with
